@@ -8,7 +8,7 @@ trainer is training", "reads land on the trainer's own monitors", "a layer step 
 
 request lines
   begin <l:c:n,l:c:n,…> [T|F]  the cells: index ↦ (layer, connection, neuron); optional flag: the
-                               "other layer" test of the alias search repaired (T) or as in the code (F, default)
+                               "other layer" test of the alias search as repaired by D36 (T, default) or as it was (F)
   trainer <kind>               kind 0 = STDP-like, 1 = MSTDPET-like
   register t n c v | delcell t n | addmon t n m <n0|n1|c0|c1|cm|bad> unique prepend tags | delmon t n m
   ttrain t T|F | ltrain l T|F | lstep l | tstep t | clear t | collect t
